@@ -11,7 +11,7 @@ use std::collections::BTreeSet;
 /// (generics, where, field type, concrete Self type, concrete field type, constructor value,
 ///  mutation through deref_mut (binding `d`), check on the field afterwards,
 ///  direct mutation of the field, check through deref (binding `r`))
-const ROWS: [(&str, &str, &str, &str, &str, &str, &str, &str, &str, &str); 11] = [
+const ROWS: [(&str, &str, &str, &str, &str, &str, &str, &str, &str, &str); 13] = [
     ("", "", "u8", "X", "u8", "5u8", "*d = 9;", "x.F == 9", "x.F = 3;", "*r == 3"),
     ("", "", "String", "X", "String", "String::from(\"a\")", "d.push('z');", "x.F == \"az\"", "x.F.push('q');", "r.as_str() == \"azq\""),
     ("", "", "Box<[u8]>", "X", "Box<[u8]>", "vec![1u8, 2].into_boxed_slice()", "d[0] = 7;", "x.F[0] == 7", "x.F[1] = 8;", "r[1] == 8"),
@@ -23,6 +23,9 @@ const ROWS: [(&str, &str, &str, &str, &str, &str, &str, &str, &str, &str); 11] =
     ("<const N: usize = 2>", "", "[u8; N]", "X", "[u8; 2]", "[1u8, 2]", "d[0] = 7;", "x.F[0] == 7", "x.F[1] = 8;", "r[1] == 8"),
     ("<T: ?Sized>", "", "Box<T>", "X<[u8]>", "Box<[u8]>", "vec![1u8, 2].into_boxed_slice()", "d[0] = 7;", "x.F[0] == 7", "x.F[1] = 8;", "r[1] == 8"),
     ("<T, U: Copy>", "where U: Default", "(T, U)", "X<u8, i8>", "(u8, i8)", "(1u8, 2i8)", "d.0 = 7;", "x.F.0 == 7", "x.F.1 = 8;", "r.1 == 8"),
+    // a const parameter declared BEFORE a type parameter, and between a lifetime and a type
+    ("<const N: usize, T>", "", "[T; N]", "X<2, u8>", "[u8; 2]", "[1u8, 2]", "d[0] = 7;", "x.F[0] == 7", "x.F[1] = 8;", "r[1] == 8"),
+    ("<'a, const N: usize, T: Copy>", "where T: Default", "&'a [T; N]", "X<'static, 2, u8>", "&'static [u8; 2]", "&[1u8, 2]", "*d = &[7u8, 2];", "x.F[0] == 7", "x.F = &[7u8, 8];", "r[1] == 8"),
 ];
 
 #[derive(Clone, Debug)]
@@ -30,28 +33,38 @@ struct Case {
     vector: Vec<usize>,
     row: usize,
     named: bool,
-    /// 0 = Deref + DerefMut, 1 = Deref alone, 2 = DerefMut with a hand-written Deref
+    /// 0 = Deref + DerefMut, 1 = Deref alone, 2 = DerefMut with a hand-written Deref,
+    /// 3 = Deref + DerefMut with an explicit shared `bound(T: Copy)` (the declared where-clause must survive)
     list: usize,
+    /// the named field is a raw identifier
+    raw: bool,
     entry: Entry,
 }
 
 fn gen(ch: &mut Ch, _thorough: bool) -> Option<Case> {
     let row = ch.pick(ROWS.len());
     let named = ch.flag();
-    let list = ch.pick(3);
+    let list = ch.pick(4);
+    let raw = ch.flag();
     let entry = *ch.of(&Entry::BOTH);
-    Some(Case { vector: ch.vector(), row, named, list, entry })
+    if raw && !named {
+        return None;
+    }
+    if list == 3 && (!ROWS[row].0.contains('T') || ROWS[row].0.contains("?Sized")) {
+        return None;
+    }
+    Some(Case { vector: ch.vector(), row, named, list, raw, entry })
 }
 
 fn build(c: &Case, tier: &str) -> XCase {
     let (g, wh, fty, selfty, cfty, ctor, mut_d, chk_f, mut_f, chk_r) = ROWS[c.row];
-    let f = if c.named { "inner" } else { "0" };
-    let list = ["Deref, DerefMut", "Deref", "DerefMut"][c.list];
+    let f = if c.named { if c.raw { "r#type" } else { "inner" } } else { "0" };
+    let list = ["Deref, DerefMut", "Deref", "DerefMut", "Deref, DerefMut, bound(T: ::core::marker::Copy)"][c.list];
     let head = match c.entry {
         Entry::Attr => format!("#[derive_ex({list})]"),
         Entry::Derive => format!("#[derive(Ex)]\n#[derive_ex({list})]"),
     };
-    let item = if c.named { format!("pub struct X{g} {wh} {{ pub inner: {fty} }}") } else { format!("pub struct X{g}(pub {fty}) {wh};") };
+    let item = if c.named { format!("pub struct X{g} {wh} {{ pub {f}: {fty} }}") } else { format!("pub struct X{g}(pub {fty}) {wh};") };
     let rep = |s: &str| s.replace(".F", &format!(".{f}"));
     let mut s = String::new();
     s.push_str("use derive_ex::{derive_ex, Ex};\nuse ::core::ops::{Deref, DerefMut};\n");
@@ -68,7 +81,7 @@ fn build(c: &Case, tier: &str) -> XCase {
     }
     s.push_str("fn tid<D: Deref>(_: &D) -> ::core::any::TypeId where D::Target: 'static { ::core::any::TypeId::of::<D::Target>() }\n");
     s.push_str(&format!("type S = {selfty};\ntype F = {cfty};\n"));
-    let ctor_x = if c.named { format!("X {{ inner: {ctor} }}") } else { format!("X({ctor})") };
+    let ctor_x = if c.named { format!("X {{ {f}: {ctor} }}") } else { format!("X({ctor})") };
     s.push_str("pub fn run() -> String {\n    let mut out = String::new();\n");
     s.push_str(&format!("    let mut x: S = {ctor_x};\n"));
     s.push_str("    out.push_str(&format!(\"target-is-field-type:{};\", tid(&x) == ::core::any::TypeId::of::<F>()));\n");
